@@ -20,6 +20,7 @@ EXTENDS Naturals, Sequences, FiniteSets, TLC, Json
 CONSTANTS N, M, MI, MM,         \* nodes 1..N, pointer-valued maps 1..M, interface-valued maps 1..MI, maps of maps 1..MM
           Slots,                \* node slots in use: subset of {"p","s1","s2","a","m","mi","mm","i"}
           Fuel,
+          Boxes,                \* TRUE: an interface may also hold a struct *value* with a pointer field (a box), copied without identity
           SampleN,
           BUG_IfaceNoMemo,      \* pointers / maps held in an interface are copied without consulting the memo (pre-fix)
           BUG_MapMemoLate       \* a map is registered in the memo only after its entries were copied
@@ -33,7 +34,9 @@ MapRefs == {Nil} \cup {MapRef(k) : k \in 1..M}
 IMapRefs == {Nil} \cup {IMapRef(k) : k \in 1..MI}
 MMapRef(k) == [t |-> "mmap", v |-> k]      \* map[string]map[string]*GNode: map-typed references held as map values
 MMapRefs == {Nil} \cup {MMapRef(k) : k \in 1..MM}
-AnyRefs == NodeRefs \cup MapRefs \cup IMapRefs
+BoxRef(n) == [t |-> "box", v |-> n]         \* GBox{P: node n} held by value in an interface
+BoxRefs == IF Boxes THEN {BoxRef(n) : n \in 1..N} ELSE {}
+AnyRefs == NodeRefs \cup MapRefs \cup IMapRefs \cup BoxRefs
 
 SlotRange(s) == CASE s \in {"p", "s1", "s2", "a"} -> NodeRefs [] s = "m" -> MapRefs [] s = "mi" -> IMapRefs [] s = "mm" -> MMapRefs [] s = "i" -> AnyRefs
 NodeVals == [Slots -> AnyRefs \cup MMapRefs]
@@ -51,7 +54,7 @@ vars == <<nodes, maps, imaps, mmaps, res>>
 \*   edges : set of [fk, f, slot, t, tk] (from kind/instance, slot, to kind/instance) of the copy
 \*   fuel
 St0 == [pm |-> [n \in 1..N |-> 0], mm |-> [k \in 1..M |-> 0], im |-> [k \in 1..MI |-> 0], xm |-> [k \in 1..MM |-> 0],
-        norig |-> <<>>, morig |-> <<>>, iorig |-> <<>>, xorig |-> <<>>, edges |-> {}, fuel |-> Fuel, ret |-> 0]
+        norig |-> <<>>, morig |-> <<>>, iorig |-> <<>>, xorig |-> <<>>, borig |-> <<>>, edges |-> {}, fuel |-> Fuel, ret |-> 0]
 
 RECURSIVE CopyRef(_, _, _), CopyNodeSlots(_, _, _, _), CopyNodeInto(_, _), CopyMapInto(_, _), CopyIMapInto(_, _), CopyMMapInto(_, _)
 
@@ -67,6 +70,12 @@ CopyRef(st, ref, viaIface) ==
          IF st.mm[ref.v] # 0 /\ ~(viaIface /\ BUG_IfaceNoMemo)
          THEN [st EXCEPT !.ret = st.mm[ref.v]]
          ELSE CopyMapInto([st EXCEPT !.fuel = @ - 1], ref.v)
+  ELSE IF ref.t = "box" THEN        \* a value: a fresh instance every time, its pointer field goes through the memo
+         LET inst == Len(st.borig) + 1
+             st1 == [st EXCEPT !.borig = Append(@, ref.v), !.fuel = @ - 1]
+             sp == CopyRef(st1, NodeRef(ref.v), FALSE)
+         IN IF sp.fuel = 0 THEN sp
+            ELSE [sp EXCEPT !.edges = @ \cup {[fk |-> "box", f |-> inst, slot |-> "bp", t |-> sp.ret, tk |-> "node"]}, !.ret = inst]
   ELSE IF ref.t = "mmap" THEN
          IF st.xm[ref.v] # 0
          THEN [st EXCEPT !.ret = st.xm[ref.v]]
@@ -137,7 +146,7 @@ Terminates == res.fuel > 0
 \* references held in pointer- or map-typed slots that were identical in the input are identical in the copy:
 \* every node / map reachable through such slots has exactly one instance
 TypedEdge(e) == e.slot # "i"
-OrigOf(k, i) == CASE k = "node" -> res.norig[i] [] k = "map" -> res.morig[i] [] k = "imap" -> res.iorig[i] [] k = "mmap" -> res.xorig[i]
+OrigOf(k, i) == CASE k = "node" -> res.norig[i] [] k = "map" -> res.morig[i] [] k = "imap" -> res.iorig[i] [] k = "mmap" -> res.xorig[i] [] k = "box" -> res.borig[i]
 SharingPreserved ==
   Terminates =>
     /\ \A e1, e2 \in res.edges :
